@@ -139,7 +139,7 @@ def corpus_sets():
 
 MISTAKES = ["dup_pub_fn", "dup_pub_const", "dup_pub_struct", "type_error_in_importer", "error_in_imported",
             "unresolved_import", "syntax_error", "undefined_in_two_modules", "cyclic_consts", "cyclic_structs",
-            "cyclic_struct_const", "multibyte_then_error", "triple_duplicate", "lints_in_two_files", "hex_separator_then_error", "deep_nesting", "lexical_error_in_name_position", "skipped_declarations", "long_line_then_error", "same_pub_fn_in_two_modules", "long_type_name", "same_missing_member_twice", "illegal_return_type_in_imported"]
+            "cyclic_struct_const", "multibyte_then_error", "triple_duplicate", "lints_in_two_files", "hex_separator_then_error", "deep_nesting", "lexical_error_in_name_position", "skipped_declarations", "long_line_then_error", "same_pub_fn_in_two_modules", "long_type_name", "same_missing_member_twice", "illegal_return_type_in_imported", "array_length_above_u32"]
 
 
 def generated_set(seed, i):
@@ -251,6 +251,10 @@ def generated_set(seed, i):
             files[sp.files[b]] += "\npub fn zz_table(n: i32) -> [4]i32\n{\n\tvar t: [4]i32 = [n, n, n, n];\n\treturn: t\n}\n"
             if names and names[0] == sp.files[b] and len(names) > 1:
                 names.append(names.pop(0))      # the importer first
+        elif m == "array_length_above_u32":
+            # a length the back end cannot represent: refused, but by which diagnostic?
+            b = rng.randrange(sp.k)
+            files[sp.files[b]] += "\nfn zz_big(buffer: &[5000000000]u8) -> u8\n{\n\treturn: buffer[0]\n}\n"
         elif m == "triple_duplicate":
             b = rng.randrange(sp.k)
             files[sp.files[b]] += ("\nfn zz_tri()\n{\n}\n\nfn zz_tri()\n{\n}\n\nfn zz_tri()\n{\n}\n\nconst ZZ_TRI: i32 = 1;\nconst ZZ_TRI: i32 = 2;\nconst ZZ_TRI: i32 = 3;\n"
@@ -753,7 +757,7 @@ def evaluate_set(s, wd, cfg, rng, stats):
     # (not a bare message of a library underneath, without code or location)
     # (the tool's own top-level `Error: ...` lines - unreadable input and the like - are C18's business)
     if not panicked and base_r.rc == 1 and not base_heads and not base_r.timeout and \
-            (b"Error: " not in base_r.err or b"Error: compilation failed" in base_r.err):
+            (b"Error: " not in base_r.err or b"Error: compilation failed" in base_r.err or b"Error: out of range integral type conversion" in base_r.err):
         viol.append(("failure_without_code", "exit 1 and no diagnostic with a code on stderr: %r" % base_r.err.decode(errors="replace")[-300:], {}))
     if len(set(order)) < len(order) and not panicked:
         # a file given twice: with --out-dir the second artefact is refused first; without it the
@@ -1067,6 +1071,8 @@ def _min_job(args):
 
 
 def signature_of(cls, s, detail):
+    if cls == "failure_without_code" and "out of range integral type conversion" in detail:
+        return cls + "/array_length_above_u32"
     if cls in ("span_not_on_reported_line", "span_out_of_file") and any(b"\r\n" in v for v in s["files"].values()):
         return cls + "/crlf"
     return cls
